@@ -179,15 +179,21 @@ def loop_owner(frames):
 def stderr_frames(err):
     """/repo frames of the crashing goroutine in a fatal runtime dump, innermost first"""
     out = []
-    seen_running = False
+    pre = "github.com/hprose/hprose-golang/v3/"
     for ln in err.split("\n"):
-        if ln.startswith("goroutine ") and "[running" in ln:
-            seen_running = True
-        if seen_running or True:
-            m = re.match(r"github\.com/hprose/hprose-golang/v3/(?:[a-z/]*/)?([a-zA-Z0-9_]+\.[^\s]*?)\(", ln)
-            if m:
-                f = m.group(1).replace("(*", "").replace(")", "").replace("(", "")
-                out.append(f)
+        if not ln.startswith(pre):
+            continue
+        fn = ln[len(pre):].split(" ")[0]
+        i = fn.rfind("(")
+        if i > 0 and not fn.endswith(")") or fn.endswith("(...)"):
+            fn = fn[:fn.rfind("(")]
+        elif i > 0 and fn.endswith(")") and not fn[:i].endswith(".") :
+            fn = fn[:i]
+        fn = fn.split("/")[-1].replace("(*", "").replace(")", "").replace("(", "")
+        if fn and fn not in out[-1:]:
+            out.append(fn)
+        if len(out) >= 40:
+            break
     return out
 
 
@@ -312,11 +318,14 @@ def run_impl(cases, max_crashes):
     return obs, cr
 
 
+AS_LIMIT = [6 << 30]
+
+
 def _limit_as():
     # an allocation of tens of GB announced by a dozen bytes must fail at once (fatal "out of memory" with the
     # stack of the allocating goroutine) instead of being mapped lazily: 6 GiB of address space for the executor
     try:
-        resource.setrlimit(resource.RLIMIT_AS, (6 << 30, 6 << 30))
+        resource.setrlimit(resource.RLIMIT_AS, (AS_LIMIT[0], AS_LIMIT[0]))
     except Exception:
         pass
 
@@ -370,6 +379,23 @@ def run_impl_frames(cases, max_crashes, max_hangs=8):
 
 
 # ------------------------------------------------------------------ calibration
+
+def attribute_memory_kills(crashes):
+    """a case killed by the heap watchdog has no reliable stack (the allocating goroutine is on the system
+    stack): run it once more, alone, under a 1.5 GiB address-space limit, so that the big allocation fails at
+    once and the runtime prints the allocating stack"""
+    for cid, cr in list(crashes.items()):
+        if "executor watchdog: memory" not in cr[2]:
+            continue
+        AS_LIMIT[0] = 3 << 29
+        try:
+            o1, c1 = run_impl_frames([cr[0]], 1)
+        finally:
+            AS_LIMIT[0] = 6 << 30
+        again = c1.get(cr[0]["id"])
+        if again is not None and fatal_class(again[2]) == "out-of-memory" and again[3]:
+            cr[3] = again[3]
+
 
 def calibrate(ctx):
     """Which checks does the tree under test have?  One witness per site / behavioural repair, run
@@ -583,16 +609,19 @@ def generate(ctx, seeds):
             for v in rng.sample(list(HOT), 4 if quick else 12):
                 g.add("insert", s, b[:p] + bytes([v]) + b[p:])
     if not quick:
-        # exhaustive single-byte substitution of every distinct stream, into interface{} and into its first destination
-        for (entry, hx, mode), ss in distinct.items():
+        # exhaustive single-byte substitution (all 255 other values at every position) of every distinct stream
+        # of at most 40 bytes, into the first destination it was produced for (at most 600k cases)
+        budget_all = 600000
+        for (entry, hx, mode), ss in sorted(distinct.items(), key=lambda kv: len(kv[0][1])):
             b = bytes.fromhex(hx)
-            if len(b) > 48:
+            if len(b) > 40 or budget_all <= 0:
                 continue
-            for s in ss[:2]:
-                for p in range(len(b)):
-                    for v in range(256):
-                        if v != b[p]:
-                            g.add("substitute-all", s, b[:p] + bytes([v]) + b[p + 1:])
+            s0 = ss[0]
+            for p in range(len(b)):
+                for v in range(256):
+                    if v != b[p]:
+                        g.add("substitute-all", s0, b[:p] + bytes([v]) + b[p + 1:])
+                        budget_all -= 1
 
     # (c) grammar-aware mutations of every count / length / index field
     for s in seeds:
@@ -650,7 +679,9 @@ def expected_from_model(m, n=0):
     cl = m["class"]
     if cl.startswith("unmod") or cl.startswith("ask") or cl == "MODEL-ERROR" or cl == "fuel":
         return ("skip", cl)
-    steps, alloc = m.get("steps", 0), m.get("alloc", 0)
+    steps, alloc = m.get("steps", 0), max(m.get("alloc", 0), m.get("rsv", 0))
+    if (cl.startswith("panic:") or cl in ("value", "error")) and m.get("rsv", 0) >= (1 << 31):
+        return ("blowup", "reserved=%d" % m.get("rsv", 0))       # the up-front make / grow comes before anything else
     if cl.startswith("panic:"):
         return ("panic", cl[6:])
     if steps >= HANG_STEPS or alloc >= (1 << 31):
@@ -735,14 +766,14 @@ def run(ctx):
         if m["class"].startswith("panic:") and m["class"][6:] in FATAL_SITES:
             alone.append(c)
             continue
-        big = (m.get("steps", 0) > HEAVY_STEPS or m.get("alloc", 0) > HEAVY_ALLOC or len(c["hex"]) > 400000)
+        big = (m.get("steps", 0) > HEAVY_STEPS or max(m.get("alloc", 0), m.get("rsv", 0)) > HEAVY_ALLOC or len(c["hex"]) > 400000)
         (heavy if big else light).append(c)
     budget = 12 if ctx.tier == "quick" else 60
     hang_budget = 3 if ctx.tier == "quick" else 14
     chosen, sig_seen = [], {}
     for c in sorted(heavy, key=lambda c: len(c["hex"])):
         m = model[c["id"]]
-        hang = m.get("steps", 0) >= HANG_STEPS and m.get("alloc", 0) < (1 << 30)
+        hang = m.get("steps", 0) >= HANG_STEPS and max(m.get("alloc", 0), m.get("rsv", 0)) < (1 << 30)
         sig = (c["entry"], json.dumps(c.get("t") or c.get("rt") or c.get("svc")), "hang" if hang else "mem", c["hex"][:2])
         if sig in sig_seen:
             continue
@@ -771,6 +802,7 @@ def run(ctx):
     T["impl_isolated"] = round(time.time() - t0, 1); t0 = time.time()
     ctx.note("phase_seconds", T)
     ctx.note("isolated_cases", {"model_predicted_fatal": len(alone), "executed_each_in_its_own_process": len(alone_run)})
+    attribute_memory_kills(crashes)
     ran = {c["id"] for c in light} | {c["id"] for c in chosen} | {c["id"] for c in alone_run}
 
     failing = {}      # key -> (len, case, what, model)
